@@ -305,7 +305,7 @@ def run_real(case, tmpdir):
     dst.__init__()
     saved_reg = dict(_errors._error_extraction.registry)
     _errors._error_extraction.registry.clear()
-    saved_time, saved_uuid = _action.time, _action.uuid4
+    saved_time, saved_uuid = _action.time, getattr(_action, "uuid4", None)  # (a source that no longer uses uuid4 shows up as a broken tie)
     _action.time = sysinterp.Clock()
     uu = itertools.count()
     _action.uuid4 = lambda: "uuid-%d" % next(uu)
@@ -331,7 +331,11 @@ def run_real(case, tmpdir):
         dst._destinations, dst._any_added, dst._globalFields = saved_dst
         _errors._error_extraction.registry.clear()
         _errors._error_extraction.registry.update(saved_reg)
-        _action.time, _action.uuid4 = saved_time, saved_uuid
+        _action.time = saved_time
+        if saved_uuid is not None:
+            _action.uuid4 = saved_uuid
+        else:
+            del _action.uuid4
         for path, f in rt.files.values():
             try:
                 f.close()
